@@ -262,7 +262,20 @@ def read_context(path, lineno, before=40):
         return {"line": target}
     same = [x for x in out if x.get("tr") == target.get("tr")]
     slim = [{k: x.get(k) for k in ("n", "ev", "a", "res")} for x in same[:-1]]
-    return {"line": target, "preceding": slim}
+    res = {"line": target, "preceding": slim}
+    # table traces begin with a "scenario" line that holds the whole scenario: keep it so the case can be re-run
+    try:
+        want = ('{"tr":%d,' % target.get("tr")).encode()
+        with open(path, "rb") as f:
+            for l in f:
+                if l.startswith(want) and b'"ev":"scenario"' in l[:80]:
+                    sc = json.loads(l)
+                    res["scenario"] = json.loads(sc["a"]["note"])
+                    res["scenario_via"] = sc["a"].get("kind", "")
+                    break
+    except Exception:
+        pass
+    return res
 
 
 class Findings:
